@@ -59,6 +59,10 @@ var c07Sets = [][]c07Route{
 	// prefix, a duplicate, a second match-all): the accepted routes stay as they were
 	{{Method: "GET", Text: "/a/{x}"}, {Method: "GET", Text: "/a/{x}/{y}/{y}", Rejected: true}, {Method: "GET", Text: "/a/{x}/z"}, {Method: "GET", Text: "/a/{x}/z", Rejected: true}, {Method: "GET", Text: "/{m: **}"}},
 	{{Method: "GET", Text: "/a/b/z"}, {Method: "GET", Text: "/a/?b"}, {Method: "GET", Text: "/a", Rejected: true}, {Method: "GET", Text: "/a/{m: **}/{n: **}/z", Rejected: true}, {Method: "GET", Text: "/a/{m: **}/z"}},
+	// a route whose only segment is optional (its short form is the root) registered after dynamic one-segment routes
+	{{Method: "GET", Text: "/{x}"}, {Method: "GET", Text: "/?z"}},
+	{{Method: "GET", Text: "/{m: **}"}, {Method: "GET", Text: "/?z"}, {Method: "GET", Text: "/a/{y: /[az]+/}"}},
+	{{Method: "GET", Text: "/{x: /[az]+/}"}, {Method: "GET", Text: "/a"}, {Method: "GET", Text: "/?{y: /z+/}"}},
 	// several binds in one route, for requests that carry a well-formed escape in one captured value and a
 	// malformed one in another (each value is decoded, or left raw, on its own)
 	{{Method: "GET", Text: "/a/{x}/{y}/{z}"}, {Method: "GET", Text: "/z/{x}-{y}-{w}"}, {Method: "GET", Text: "/{m: **}/z/{k}/{j}"}},
